@@ -414,6 +414,29 @@ func main() {
 			return map[string]any{"entry": c.Entry, "case": n, "outcome": res.Outcome}
 		})
 	})
+	// second pass: the host nodes are re-created with other numbers and types (a driver reload),
+	// in the same process; every case that has device nodes is applied again and judged against
+	// the host as it is NOW (whatever the first pass left behind must not matter)
+	_ = nodes.Replace("char", "c", 240, 7)
+	_ = nodes.Replace("char2", "b", 11, 201)
+	_ = nodes.Replace("block", "c", 9, 9)
+	_ = nodes.Replace("fifo", "p", 0, 0)
+	var again []Case
+	for _, c := range cases {
+		if c.opt(5) != "none" && len(again) < 4000 {
+			again = append(again, c)
+		}
+	}
+	r.ParallelL(int64(len(again)), func(i int64, l *hx.Local) {
+		d := <-scr
+		res := eval(again[i], d)
+		scr <- d
+		if res.Fail != nil {
+			res.Fail.Sig = "after-host-nodes-were-recreated:" + res.Fail.Sig
+		}
+		l.Record(res, func() any { return map[string]any{"entry": again[i].Entry, "pass": "host nodes re-created", "outcome": res.Outcome} })
+	})
+	r.Extra["cases_repeated_after_host_nodes_were_recreated"] = len(again)
 	os.RemoveAll(root)
 	r.Finish()
 }
